@@ -269,13 +269,20 @@ class SqlImpl(TableImpl):
             return sqa_expr[expr._uuid]
 
         elif isinstance(expr, ColFn):
+            param_types = expr.op.trie.best_match(tuple(arg.dtype() for arg in expr.args))[0]
             args: list[sqa.ColumnElement] = [
                 cls.compile_col_expr(arg, sqa_expr, compile_literals=not types.is_const(param))
-                for arg, param in zip(
-                    expr.args,
-                    expr.op.trie.best_match(tuple(arg.dtype() for arg in expr.args))[0],
-                    strict=False,
-                )
+                for arg, param in zip(expr.args, param_types, strict=False)
+            ]
+            # An untyped `None` gets the type of the parameter it is passed to (the
+            # rendering of some operators depends on the operand types).
+            args = [
+                sqa.type_coerce(compiled, cls.sqa_type(types.without_const(param)))
+                if types.without_const(arg.dtype()) == NullType()
+                and not types.is_const(param)
+                and types.without_const(param) != NullType()
+                else compiled
+                for arg, compiled, param in zip(expr.args, args, param_types, strict=False)
             ]
 
             assert expr.ftype() is not None
